@@ -62,3 +62,23 @@ def replay(model, obligation):
                 if pm.query != 'SELECT * FROM t' or pm.keyspace != want_ks or subs[0][2][1] is not h1:
                     fails.append('pv=%d stmt ks %r conn ks %r: PREPARE(query=%r, keyspace=%r) to %r (expected keyspace %r)' % (pv, ks_stmt, ks_conn, pm.query, pm.keyspace, subs[0][2][1], want_ks))
     return {'reproduced': bool(fails), 'detail': '; '.join(fails[:3]) or 'no disagreement'}
+
+
+def replay_remembers(model, obligation):
+    """PreparedStatement.from_message on the real class, for statements with and without bind markers"""
+    import types
+    from cassandra.query import PreparedStatement
+    fails = []
+    col = types.SimpleNamespace(keyspace_name='ks', table_name='tb', name='a', type=None)
+    for label, cols in (('no bind markers ([])', []), ('no bind markers (None)', None), ('one bind marker', [col])):
+        for pv in (4, 5):
+            tok = {k: object() for k in ('query_id', 'query', 'keyspace', 'result_metadata', 'result_metadata_id', 'cep')}
+            ps = PreparedStatement.from_message(tok['query_id'], cols, None, types.SimpleNamespace(keyspaces={}), tok['query'], tok['keyspace'], pv,
+                                                tok['result_metadata'], tok['result_metadata_id'], tok['cep'])
+            got = dict(query_id=ps.query_id is tok['query_id'], query_string=ps.query_string is tok['query'], keyspace=ps.keyspace is tok['keyspace'],
+                       protocol_version=ps.protocol_version == pv, result_metadata=ps.result_metadata is tok['result_metadata'],
+                       result_metadata_id=ps.result_metadata_id is tok['result_metadata_id'], column_encryption_policy=ps.column_encryption_policy is tok['cep'])
+            lost = sorted(k for k, ok in got.items() if not ok)
+            if lost:
+                fails.append('statement with %s, protocol v%d: from_message does not hand on %s' % (label, pv, ', '.join(lost)))
+    return {'reproduced': bool(fails), 'detail': '; '.join(fails[:2]) or 'every argument reaches the statement on both paths'}
